@@ -76,22 +76,27 @@ type c18sum struct {
 	res  *flow.Result
 	cons string
 
-	noreturn  bool
-	obj, ver  int // uniform counts over live return exits; -1 = path dependent
-	verFirst  bool
-	hdr       bool        // every live return exit has set the version header
-	hdrBad    *flow.State // the header is set to something else than the version written
-	hdrSeen   bool
-	wDelta    int // value written to the version key = version read + wDelta
-	wKnown    bool
-	objRead   bool // reads the config-object key space (directly or through a callee)
-	takesLock bool
-	retDelta  int // value returned = version read + retDelta
-	retKnown  bool
-	sites     []*c18site
-	needs     []*c18site
-	wBad      *flow.State // a version write whose value is not read+1
-	wSeen     bool
+	noreturn    bool
+	obj, ver    int // uniform counts over live return exits; -1 = path dependent
+	verFirst    bool
+	hdr         bool        // every live return exit has set the version header
+	hdrBad      *flow.State // the header is set to something else than the version written
+	hdrSeen     bool
+	w           c18dv // value written to the version key (base r = version read, p<i> = parameter i)
+	wKnown      bool
+	errAll      bool     // every live return exit has sent an API error response
+	errMixed    bool     // some do, some do not
+	statuses    []string // status codes sent on every exit (errAll)
+	statusParam int      // index of the parameter forwarded as status code (-1 = none)
+	objRead     bool     // reads the config-object key space (directly or through a callee)
+	verRead     bool     // reads the config version key (directly or through a callee)
+	takesLock   bool
+	ret         c18dv // value returned
+	retKnown    bool
+	sites       []*c18site
+	needs       []*c18site
+	wBad        *flow.State // a version write whose value is not read+1
+	wSeen       bool
 }
 
 type c18apiCtx struct {
@@ -348,7 +353,7 @@ func c18Admin(c *core.Ctx) {
 				continue
 			}
 			for _, call := range calls(fd.Body, true) {
-				if g, ok := typeutilCallee(info, call).(*types.Func); ok && relevant[g] {
+				if g := a.calleeOf(call); g != nil && relevant[g] {
 					relevant[fo] = true
 					changed = true
 					break
@@ -400,6 +405,46 @@ func (a *c18apiCtx) references() (escapes, external map[*types.Func]bool) {
 				return true
 			})
 		}
+		// locals bound once to a function / method value and used only as callees
+		calledLocal := map[*ast.Ident]bool{} // identifiers of such bound values
+		for _, file := range pkg.Syntax {
+			ast.Inspect(file, func(n ast.Node) bool {
+				as, ok := n.(*ast.AssignStmt)
+				if !ok || len(as.Lhs) != len(as.Rhs) {
+					return true
+				}
+				for i, l := range as.Lhs {
+					lid, ok := l.(*ast.Ident)
+					if !ok {
+						continue
+					}
+					v, _ := pkg.TypesInfo.Defs[lid].(*types.Var)
+					if v == nil {
+						continue
+					}
+					var fid *ast.Ident
+					switch r := ast.Unparen(as.Rhs[i]).(type) {
+					case *ast.SelectorExpr:
+						fid = r.Sel
+					case *ast.Ident:
+						fid = r
+					}
+					if fid == nil || c18boundValue(pkg, v) != ast.Unparen(as.Rhs[i]) {
+						continue
+					}
+					onlyCalled := true
+					for uid, uo := range pkg.TypesInfo.Uses {
+						if uo == v && !calleeIdent[uid] {
+							onlyCalled = false
+						}
+					}
+					if onlyCalled {
+						calledLocal[fid] = true
+					}
+				}
+				return true
+			})
+		}
 		for id, o := range pkg.TypesInfo.Uses {
 			fo, ok := o.(*types.Func)
 			if !ok {
@@ -409,7 +454,9 @@ func (a *c18apiCtx) references() (escapes, external map[*types.Func]bool) {
 				continue
 			}
 			if !calleeIdent[id] {
-				escapes[fo] = true
+				if !calledLocal[id] {
+					escapes[fo] = true
+				}
 			} else if pkg != a.pkg {
 				external[fo] = true
 			}
@@ -425,14 +472,14 @@ func c18paren(s string) string {
 	return " (" + s + ")"
 }
 
-func c18setVW(st *flow.State, d int, known bool) {
+func c18setVW(st *flow.State, v c18dv, known bool) {
 	for _, kv := range st.Facts() {
 		if strings.HasPrefix(kv, c18evVW) {
 			st.Set(kv[:len(kv)-2], flow.Unknown)
 		}
 	}
 	if known {
-		st.Set(c18evVW+strconv.Itoa(d), flow.True)
+		st.Set(c18evVW+v.String(), flow.True)
 	} else {
 		st.Set(c18evVW+"?", flow.True)
 	}
@@ -472,189 +519,17 @@ func c18addVer(st *flow.State, n int) {
 	}
 }
 
-// ---- "value relative to the version read" mini-domain (facts ev:c18:d:<var>#<delta>)
-
-func c18getDelta(st *flow.State, render string) (int, bool) {
-	pre := c18dPrefix + render + "#"
-	for _, kv := range st.Facts() {
-		if strings.HasPrefix(kv, pre) && strings.HasSuffix(kv, "=T") {
-			if d, err := strconv.Atoi(kv[len(pre) : len(kv)-2]); err == nil {
-				return d, true
-			}
-		}
-	}
-	return 0, false
-}
-
-func c18setDelta(st *flow.State, render string, d int, ok bool) {
-	pre := c18dPrefix + render + "#"
-	for _, kv := range st.Facts() {
-		if strings.HasPrefix(kv, pre) {
-			st.Set(kv[:len(kv)-2], flow.Unknown)
-		}
-	}
-	if ok {
-		st.Set(pre+strconv.Itoa(d), flow.True)
-	}
-}
-
-func c18constInt(info *types.Info, e ast.Expr) (int, bool) {
-	tv, ok := info.Types[e]
-	if !ok || tv.Value == nil {
-		return 0, false
-	}
-	n, err := strconv.Atoi(tv.Value.ExactString())
-	return n, err == nil
-}
-
-// evalDelta evaluates e as (version read) + delta.
-func (a *c18apiCtx) evalDelta(f *flow.Func, st *flow.State, e ast.Expr) (int, bool) {
-	e = ast.Unparen(e)
-	switch x := e.(type) {
-	case *ast.Ident:
-		return c18getDelta(st, f.Render(x))
-	case *ast.StarExpr:
-		return a.evalDelta(f, st, x.X)
-	case *ast.BinaryExpr:
-		switch x.Op {
-		case token.ADD:
-			if k, ok := c18constInt(f.Info, x.Y); ok {
-				d, ok2 := a.evalDelta(f, st, x.X)
-				return d + k, ok2
-			}
-			if k, ok := c18constInt(f.Info, x.X); ok {
-				d, ok2 := a.evalDelta(f, st, x.Y)
-				return d + k, ok2
-			}
-		case token.SUB:
-			if k, ok := c18constInt(f.Info, x.Y); ok {
-				d, ok2 := a.evalDelta(f, st, x.X)
-				return d - k, ok2
-			}
-		}
-	case *ast.CallExpr:
-		if tv, ok := f.Info.Types[x.Fun]; ok && tv.IsType() && len(x.Args) == 1 {
-			return a.evalDelta(f, st, x.Args[0])
-		}
-		if d := a.direct[x]; d != nil && !d.write && d.kind == "version" {
-			return 0, true
-		}
-		fo, ok := f.Callee(x).(*types.Func)
-		if !ok {
-			return 0, false
-		}
-		if _, mine := a.decls[fo]; mine {
-			if s := a.summary(fo); s != nil && s.retKnown {
-				return s.retDelta, true
-			}
-			return 0, false
-		}
-		if fo.Pkg() != nil {
-			switch fo.Pkg().Path() + "." + fo.Name() {
-			case "fmt.Sprintf", "fmt.Sprint", "strconv.FormatInt", "strconv.Itoa", "strconv.FormatUint",
-				"strconv.ParseInt", "strconv.Atoi", "strconv.ParseUint":
-				// a textual form of exactly one tracked value
-				n, val := 0, 0
-				for _, arg := range x.Args {
-					if d, ok := a.evalDelta(f, st, arg); ok {
-						n++
-						val = d
-					}
-				}
-				if n == 1 {
-					return val, true
-				}
-			}
-		}
-	}
-	return 0, false
-}
-
-func (a *c18apiCtx) deltaNode(f *flow.Func, st *flow.State, n ast.Node) {
-	switch s := n.(type) {
-	case *ast.AssignStmt:
-		switch {
-		case s.Tok == token.ASSIGN || s.Tok == token.DEFINE:
-			if len(s.Lhs) == len(s.Rhs) {
-				type upd struct {
-					r  string
-					d  int
-					ok bool
-				}
-				var us []upd
-				for i, l := range s.Lhs {
-					if id, ok := l.(*ast.Ident); ok && id.Name != "_" {
-						d, ok := a.evalDelta(f, st, s.Rhs[i])
-						us = append(us, upd{f.Render(id), d, ok})
-					}
-				}
-				for _, u := range us {
-					c18setDelta(st, u.r, u.d, u.ok)
-				}
-			} else if len(s.Rhs) == 1 {
-				for i, l := range s.Lhs {
-					id, ok := l.(*ast.Ident)
-					if !ok || id.Name == "_" {
-						continue
-					}
-					if i == 0 {
-						d, ok := a.evalDelta(f, st, s.Rhs[0])
-						c18setDelta(st, f.Render(id), d, ok)
-					} else {
-						c18setDelta(st, f.Render(id), 0, false)
-					}
-				}
-			}
-		case len(s.Lhs) == 1 && len(s.Rhs) == 1:
-			id, ok := s.Lhs[0].(*ast.Ident)
-			if !ok {
-				return
-			}
-			d, known := c18getDelta(st, f.Render(id))
-			k, isConst := c18constInt(f.Info, s.Rhs[0])
-			switch {
-			case known && isConst && s.Tok == token.ADD_ASSIGN:
-				c18setDelta(st, f.Render(id), d+k, true)
-			case known && isConst && s.Tok == token.SUB_ASSIGN:
-				c18setDelta(st, f.Render(id), d-k, true)
-			default:
-				c18setDelta(st, f.Render(id), 0, false)
-			}
-		}
-	case *ast.IncDecStmt:
-		if id, ok := s.X.(*ast.Ident); ok {
-			if d, known := c18getDelta(st, f.Render(id)); known {
-				if s.Tok == token.INC {
-					c18setDelta(st, f.Render(id), d+1, true)
-				} else {
-					c18setDelta(st, f.Render(id), d-1, true)
-				}
-			}
-		}
-	case *ast.ValueSpec:
-		if len(s.Names) == len(s.Values) {
-			for i, id := range s.Names {
-				d, ok := a.evalDelta(f, st, s.Values[i])
-				c18setDelta(st, f.Render(id), d, ok)
-			}
-		}
-	case *ast.ReturnStmt:
-		if len(s.Results) >= 1 {
-			if tv, ok := f.Info.Types[s.Results[0]]; ok && tv.Value != nil {
-				return // constant (e.g. "no version stored yet")
-			}
-			if d, ok := a.evalDelta(f, st, s.Results[0]); ok {
-				st.Set(c18evRet+strconv.Itoa(d), flow.True)
-			} else {
-				st.Set(c18evRetUnk, flow.True)
-			}
-		}
-	}
-}
-
 // ---- summaries
 
 func c18live(st *flow.State) bool { return !st.Is(c18evDead, flow.True) }
+
+// calleeOf resolves the function a call reaches (through a local bound once to a method value
+// or a function), nil for dynamic calls and closures.
+func (a *c18apiCtx) calleeOf(call *ast.CallExpr) *types.Func {
+	o, _, _ := c18target(a.pkg, call)
+	fo, _ := o.(*types.Func)
+	return fo
+}
 
 func (a *c18apiCtx) summary(fo *types.Func) *c18sum {
 	if s, ok := a.sums[fo]; ok {
@@ -670,10 +545,175 @@ func (a *c18apiCtx) summary(fo *types.Func) *c18sum {
 	c := a.c
 	f := flow.NewFunc(a.pkg, fd)
 	c.Count("functions_analysed", 1)
-	s := &c18sum{fo: fo, fd: fd, f: f, cons: declName(a.pkg, fd)}
+	s := &c18sum{fo: fo, fd: fd, f: f, cons: declName(a.pkg, fd), statusParam: -1}
 	info := a.pkg.TypesInfo
+	dx := &c18dctx{a: a, f: f, params: c18paramIndex(f)}
 
-	wDeltas, wUnknown := map[int]bool{}, false
+	wSet, wUnknown := map[c18dv]bool{}, false
+	// a version write of value v (known or not) happens in state st
+	versionWrite := func(st *flow.State, v c18dv, known bool) {
+		c18setVW(st, v, known)
+		if !c18live(st) {
+			return
+		}
+		if known {
+			wSet[v] = true
+		} else {
+			wUnknown = true
+		}
+		if known && v.base != "r" {
+			return // relative to a parameter: judged where the caller supplies the value
+		}
+		s.wSeen = true
+		if (!known || v.d != 1) && s.wBad == nil {
+			s.wBad = st
+		}
+	}
+	var onCall func(st *flow.State, call *ast.CallExpr, callee types.Object, deferred bool, depth int)
+	onCall = func(st *flow.State, call *ast.CallExpr, callee types.Object, deferred bool, depth int) {
+		switch c18ifaceCall(info, call, "Mutex") {
+		case "Lock":
+			st.Set(c18evMxL, flow.True)
+		case "Unlock":
+			st.Set(c18evMxU, flow.True)
+		}
+		if d := a.direct[call]; d != nil {
+			switch {
+			case d.write && d.kind == "object":
+				c18addObj(st, 1)
+			case d.write && d.kind == "version":
+				c18addVer(st, 1)
+				var v c18dv
+				known := false
+				if (d.method == "Put" || d.method == "PutUnderLease") && len(call.Args) == 2 {
+					v, known = dx.eval(st, call.Args[1])
+				}
+				versionWrite(st, v, known)
+			case !d.write && d.kind == "object":
+				if st.Is(c18evS, flow.True) {
+					st.Set(c18evReadL, flow.True)
+				} else {
+					st.Set(c18evReadU, flow.True)
+				}
+			}
+			return
+		}
+		fo2, ok := callee.(*types.Func)
+		if !ok {
+			// a call through a local: a method value / function (resolved), or a closure whose
+			// straight-line body is applied here
+			target, _, lit := c18target(a.pkg, call)
+			if t, ok := target.(*types.Func); ok {
+				fo2 = t
+			} else if lit != nil && depth < 3 {
+				inner, straight := c18straightCalls(lit.Body)
+				if !straight {
+					if a.mentionsAPI(lit.Body) {
+						st.Set(c18evNonU, flow.True)
+					}
+					return
+				}
+				for _, ic := range inner {
+					onCall(st, ic, f.Callee(ic), deferred, depth+1)
+				}
+				return
+			} else {
+				return
+			}
+		}
+		// the version header
+		if fo2.FullName() == "(net/http.Header).Set" && len(call.Args) == 2 {
+			if tv, ok := info.Types[call.Args[0]]; ok && tv.Value != nil && tv.Value.ExactString() == strconv.Quote(a.hdrKey) {
+				if st.Is(c18evV1, flow.True) {
+					st.Set(c18evHdr, flow.True)
+					s.hdrSeen = true
+					v, known := dx.eval(st, call.Args[1])
+					if (!known || !st.Is(c18evVW+v.String(), flow.True)) && s.hdrBad == nil && c18live(st) {
+						s.hdrBad = st
+					}
+				}
+			}
+			return
+		}
+		if fo2 == a.respFn {
+			st.Set(c18evErr, flow.True)
+			sig := fo2.Type().(*types.Signature)
+			for i := 0; i < sig.Params().Len() && i < len(call.Args); i++ {
+				if b, ok := sig.Params().At(i).Type().Underlying().(*types.Basic); ok && b.Info()&types.IsInteger != 0 {
+					a.setStatus(st, dx, call.Args[i])
+				}
+			}
+			return
+		}
+		if _, mine := a.decls[fo2]; !mine {
+			return
+		}
+		if a.lockFn[fo2] {
+			st.Set(c18evS, flow.True)
+			s.takesLock = true
+			return
+		}
+		if a.unlkFn[fo2] {
+			st.Set(c18evS, flow.False)
+			if st.Is(c18evO1, flow.True) && !st.Is(c18evV1, flow.True) {
+				st.Set(c18evPend, flow.True)
+			}
+			return
+		}
+		g := a.summary(fo2)
+		if g == nil {
+			return // recursion: no contribution
+		}
+		if g.noreturn {
+			st.Set(c18evDead, flow.True)
+			return
+		}
+		if g.obj < 0 || g.ver < 0 || g.errMixed {
+			st.Set(c18evNonU, flow.True)
+		} else {
+			if g.obj > 0 && g.ver > 0 && g.verFirst {
+				c18addVer(st, g.ver)
+				c18addObj(st, g.obj)
+			} else {
+				c18addObj(st, g.obj)
+				c18addVer(st, g.ver)
+			}
+			if g.ver > 0 {
+				switch {
+				case g.wKnown && g.w.base != "r":
+					// the helper writes what it is handed: the value is ours
+					v, known := dx.rebase(st, call, g.w)
+					versionWrite(st, v, known)
+				case g.retKnown:
+					v, known := dx.rebase(st, call, g.ret)
+					c18setVW(st, v, known)
+				case g.wKnown:
+					c18setVW(st, g.w, true)
+				default:
+					c18setVW(st, c18dv{}, false)
+				}
+			}
+		}
+		if g.errAll {
+			st.Set(c18evErr, flow.True)
+			for _, code := range g.statuses {
+				st.Set(c18stPrefix+code, flow.True)
+			}
+			if g.statusParam >= 0 && g.statusParam < len(call.Args) {
+				a.setStatus(st, dx, call.Args[g.statusParam])
+			}
+		}
+		if g.hdr {
+			st.Set(c18evHdr, flow.True)
+		}
+		if g.objRead {
+			if st.Is(c18evS, flow.True) {
+				st.Set(c18evReadL, flow.True)
+			} else {
+				st.Set(c18evReadU, flow.True)
+			}
+		}
+	}
 	res := analyze(c, f, flow.Config{
 		NoHavoc: true,
 		MayPanic: func(call *ast.CallExpr, callee types.Object) bool {
@@ -689,131 +729,16 @@ func (a *c18apiCtx) summary(fo *types.Func) *c18sum {
 				}
 				sig, _ := o.Type().(*types.Signature)
 				return sig != nil && sig.Recv() != nil && types.IsInterface(sig.Recv().Type())
-			case nil:
+			default:
 				if tv, ok := info.Types[call.Fun]; ok && tv.IsType() {
 					return false
 				}
 				return true // call through a function value
 			}
-			return false
 		},
-		OnNode: func(st *flow.State, n ast.Node) { a.deltaNode(f, st, n) },
+		OnNode: func(st *flow.State, n ast.Node) { dx.node(st, n) },
 		OnCall: func(st *flow.State, call *ast.CallExpr, callee types.Object, deferred bool) {
-			switch c18ifaceCall(info, call, "Mutex") {
-			case "Lock":
-				st.Set(c18evMxL, flow.True)
-			case "Unlock":
-				st.Set(c18evMxU, flow.True)
-			}
-			if d := a.direct[call]; d != nil {
-				switch {
-				case d.write && d.kind == "object":
-					c18addObj(st, 1)
-				case d.write && d.kind == "version":
-					c18addVer(st, 1)
-					s.wSeen = true
-					dl, known := 0, false
-					if (d.method == "Put" || d.method == "PutUnderLease") && len(call.Args) == 2 {
-						dl, known = a.evalDelta(f, st, call.Args[1])
-					}
-					c18setVW(st, dl, known)
-					if c18live(st) {
-						wDeltas[dl] = true
-						if !known {
-							wUnknown = true
-						}
-						if (!known || dl != 1) && s.wBad == nil {
-							s.wBad = st
-						}
-					}
-				case !d.write && d.kind == "object":
-					if st.Is(c18evS, flow.True) {
-						st.Set(c18evReadL, flow.True)
-					} else {
-						st.Set(c18evReadU, flow.True)
-					}
-				}
-				return
-			}
-			fo2, ok := callee.(*types.Func)
-			if !ok {
-				return
-			}
-			// the version header
-			if fo2.FullName() == "(net/http.Header).Set" && len(call.Args) == 2 {
-				if tv, ok := info.Types[call.Args[0]]; ok && tv.Value != nil && tv.Value.ExactString() == strconv.Quote(a.hdrKey) {
-					if st.Is(c18evV1, flow.True) {
-						st.Set(c18evHdr, flow.True)
-						s.hdrSeen = true
-						dl, known := a.evalDelta(f, st, call.Args[1])
-						if (!known || !st.Is(c18evVW+strconv.Itoa(dl), flow.True)) && s.hdrBad == nil && c18live(st) {
-							s.hdrBad = st
-						}
-					}
-				}
-				return
-			}
-			if fo2 == a.respFn {
-				st.Set(c18evErr, flow.True)
-				sig := fo2.Type().(*types.Signature)
-				for i := 0; i < sig.Params().Len() && i < len(call.Args); i++ {
-					if b, ok := sig.Params().At(i).Type().Underlying().(*types.Basic); ok && b.Info()&types.IsInteger != 0 {
-						if tv, ok := info.Types[call.Args[i]]; ok && tv.Value != nil {
-							st.Set(c18stPrefix+tv.Value.ExactString(), flow.True)
-						} else {
-							st.Set(c18stPrefix+"?", flow.True)
-						}
-					}
-				}
-				return
-			}
-			if _, mine := a.decls[fo2]; !mine {
-				return
-			}
-			if a.lockFn[fo2] {
-				st.Set(c18evS, flow.True)
-				s.takesLock = true
-				return
-			}
-			if a.unlkFn[fo2] {
-				st.Set(c18evS, flow.False)
-				if st.Is(c18evO1, flow.True) && !st.Is(c18evV1, flow.True) {
-					st.Set(c18evPend, flow.True)
-				}
-				return
-			}
-			g := a.summary(fo2)
-			if g == nil {
-				return // recursion: no contribution
-			}
-			if g.noreturn {
-				st.Set(c18evDead, flow.True)
-				return
-			}
-			if g.obj < 0 || g.ver < 0 {
-				st.Set(c18evNonU, flow.True)
-			} else {
-				if g.obj > 0 && g.ver > 0 && g.verFirst {
-					c18addVer(st, g.ver)
-					c18addObj(st, g.obj)
-				} else {
-					c18addObj(st, g.obj)
-					c18addVer(st, g.ver)
-				}
-				if g.ver > 0 {
-					c18setVW(st, g.retDelta, g.retKnown)
-				}
-			}
-			if g.hdr {
-				st.Set(c18evHdr, flow.True)
-			}
-			if g.objRead {
-				if st.Is(c18evS, flow.True) {
-					st.Set(c18evReadL, flow.True)
-				} else {
-					st.Set(c18evReadU, flow.True)
-				}
-			}
+			onCall(st, call, callee, deferred, 0)
 		},
 	})
 	if res == nil {
@@ -824,10 +749,11 @@ func (a *c18apiCtx) summary(fo *types.Func) *c18sum {
 
 	// exits
 	first := true
-	liveReturns := 0
+	liveReturns, errExits := 0, 0
 	s.hdr = true
-	retSet := map[int]bool{}
+	retSet := map[c18dv]bool{}
 	retUnknown := false
+	var statusSets []map[string]bool
 	for _, ex := range res.Exits {
 		if ex.Kind != flow.ExitReturn || !c18live(ex.State) {
 			continue
@@ -858,26 +784,62 @@ func (a *c18apiCtx) summary(fo *types.Func) *c18sum {
 		if st.Is(c18evRetUnk, flow.True) {
 			retUnknown = true
 		}
+		codes := map[string]bool{}
 		for _, kv := range st.Facts() {
-			if strings.HasPrefix(kv, c18evRet) && strings.HasSuffix(kv, "=T") {
-				if d, err := strconv.Atoi(kv[len(c18evRet) : len(kv)-2]); err == nil {
-					retSet[d] = true
+			if !strings.HasSuffix(kv, "=T") {
+				continue
+			}
+			k := kv[:len(kv)-2]
+			if strings.HasPrefix(k, c18evRet) {
+				if dv, ok := c18parseDV(k[len(c18evRet):]); ok {
+					retSet[dv] = true
 				}
 			}
+			if strings.HasPrefix(k, c18stPrefix) {
+				codes[k[len(c18stPrefix):]] = true
+			}
+		}
+		if st.Is(c18evErr, flow.True) {
+			errExits++
+			statusSets = append(statusSets, codes)
 		}
 	}
 	s.noreturn = liveReturns == 0
 	if s.noreturn {
 		s.hdr = false
 	}
-	if !wUnknown && len(wDeltas) == 1 {
-		for d := range wDeltas {
-			s.wDelta, s.wKnown = d, true
+	s.errAll = liveReturns > 0 && errExits == liveReturns
+	s.errMixed = errExits > 0 && errExits < liveReturns
+	if s.errAll {
+		// the statuses sent on every exit
+		for code := range statusSets[0] {
+			all := true
+			for _, m := range statusSets[1:] {
+				if !m[code] {
+					all = false
+				}
+			}
+			if !all {
+				continue
+			}
+			if strings.HasPrefix(code, "p") {
+				if i, err := strconv.Atoi(code[1:]); err == nil {
+					s.statusParam = i
+				}
+				continue
+			}
+			s.statuses = append(s.statuses, code)
+		}
+		sort.Strings(s.statuses)
+	}
+	if !wUnknown && len(wSet) == 1 {
+		for v := range wSet {
+			s.w, s.wKnown = v, true
 		}
 	}
 	if !retUnknown && len(retSet) == 1 {
-		for d := range retSet {
-			s.retDelta, s.retKnown = d, true
+		for v := range retSet {
+			s.ret, s.retKnown = v, true
 		}
 	}
 
@@ -896,19 +858,30 @@ func (a *c18apiCtx) summary(fo *types.Func) *c18sum {
 				if d.kind == "object" {
 					s.objRead = true
 				}
-				continue
+				if d.kind != "version" {
+					continue
+				}
+				s.verRead = true
+				if s.ver == 0 {
+					continue // a reader (e.g. the version attacher): no upgrade depends on it here
+				}
+				what = "cluster." + d.method + " of the config version feeding the upgrade"
 			}
-			switch d.kind {
-			case "object":
-				what = "cluster." + d.method + " of a config object"
-			case "version":
-				what = "cluster." + d.method + " of the config version"
-			case "member":
-				what = "cluster." + d.method
+			switch {
+			case what != "":
 			default:
-				continue
+				switch d.kind {
+				case "object":
+					what = "cluster." + d.method + " of a config object"
+				case "version":
+					what = "cluster." + d.method + " of the config version"
+				case "member":
+					what = "cluster." + d.method
+				default:
+					continue
+				}
 			}
-		} else if g, ok := typeutilCallee(info, call).(*types.Func); ok {
+		} else if g := a.calleeOf(call); g != nil {
 			if _, mine := a.decls[g]; !mine || a.lockFn[g] || a.unlkFn[g] {
 				continue
 			}
@@ -919,13 +892,22 @@ func (a *c18apiCtx) summary(fo *types.Func) *c18sum {
 			if gs.objRead {
 				s.objRead = true
 			}
-			if len(gs.needs) == 0 {
-				continue
+			if gs.verRead {
+				s.verRead = true
 			}
-			what = "call of " + g.Name()
-			chain = gs.needs[0].what
-			if gs.needs[0].chain != "" {
-				chain += " → " + gs.needs[0].chain
+			switch {
+			case len(gs.needs) > 0:
+				what = "call of " + g.Name()
+				chain = gs.needs[0].what
+				if gs.needs[0].chain != "" {
+					chain += " → " + gs.needs[0].chain
+				}
+			case gs.verRead && gs.ver == 0 && s.ver != 0:
+				// the version this function upgrades is read through a pure reader
+				what = "call of " + g.Name()
+				chain = "read of the config version feeding the upgrade"
+			default:
+				continue
 			}
 		} else {
 			continue
@@ -957,6 +939,38 @@ func (a *c18apiCtx) summary(fo *types.Func) *c18sum {
 	}
 	a.sums[fo] = s
 	return s
+}
+
+// setStatus records the status code handed to the error responder: a constant, or a parameter
+// of the analysed function (a wrapper forwarding its code), or unknown.
+func (a *c18apiCtx) setStatus(st *flow.State, dx *c18dctx, arg ast.Expr) {
+	info := a.pkg.TypesInfo
+	if tv, ok := info.Types[arg]; ok && tv.Value != nil {
+		st.Set(c18stPrefix+tv.Value.ExactString(), flow.True)
+		return
+	}
+	if id, ok := ast.Unparen(arg).(*ast.Ident); ok {
+		if i, ok := dx.params[info.Uses[id]]; ok {
+			st.Set(c18stPrefix+"p"+strconv.Itoa(i), flow.True)
+			return
+		}
+	}
+	st.Set(c18stPrefix+"?", flow.True)
+}
+
+// mentionsAPI reports whether a body calls a function of pkg/api or the cluster.
+func (a *c18apiCtx) mentionsAPI(body ast.Node) bool {
+	for _, call := range calls(body, true) {
+		if a.direct[call] != nil {
+			return true
+		}
+		if g := a.calleeOf(call); g != nil {
+			if _, mine := a.decls[g]; mine {
+				return true
+			}
+		}
+	}
+	return false
 }
 
 // ---- R-C18-3
@@ -1164,19 +1178,15 @@ func (a *c18apiCtx) versionRules(rel []*types.Func, escapes map[*types.Func]bool
 			continue
 		}
 		// the version helper: value written and returned = value read + 1
-		direct := false
-		for call, d := range a.direct {
-			if d.write && d.kind == "version" && contains(s.fd, call) {
-				direct = true
-			}
-		}
-		if direct {
+		// (judged in the function where the written value is expressed relative to the version
+		// read: the direct writer, or the caller of a helper that writes what it is handed)
+		if s.wSeen {
 			verWriters++
 			c.Check(s.wBad == nil && s.wSeen, "R-C18-4", s.cons+"|writes version read + 1", pos(c, s.fd.Body),
 				"the value put under the config version key is (value read under the lock) + 1 on every path",
 				"the value written to the config version key is not provably (value read) + 1: versions do not grow by exactly one per successful mutation", witness(s.wBad)...)
 			if sig := fo.Type().(*types.Signature); sig.Results().Len() > 0 {
-				c.Check(s.retKnown && s.wKnown && s.retDelta == s.wDelta, "R-C18-4", s.cons+"|returns the version written", pos(c, s.fd.Body),
+				c.Check(s.retKnown && s.wKnown && s.ret == s.w, "R-C18-4", s.cons+"|returns the version written", pos(c, s.fd.Body),
 					"the returned value is the value written",
 					"the value returned is not the version that was written: X-Config-Version of the response differs from the stored version (two mutations can report the same version)")
 			}
@@ -1281,7 +1291,7 @@ func (a *c18apiCtx) handlerRules(s *c18sum, method string) {
 			}
 			continue
 		}
-		if g, ok := typeutilCallee(info, call).(*types.Func); ok {
+		if g := a.calleeOf(call); g != nil {
 			if gs := a.sums[g]; gs != nil && gs.objRead && gs.obj == 0 && !a.lockFn[g] && !a.unlkFn[g] {
 				reads = append(reads, call)
 			}
@@ -1301,6 +1311,14 @@ func (a *c18apiCtx) handlerRules(s *c18sum, method string) {
 	if how != "assign" {
 		c.Undecide("R-C18-4", consG, pos(c, read), "the stored object read is not assigned to a variable")
 		return
+	}
+	if tv, ok := info.Types[holder]; ok && tv.Type != nil {
+		switch tv.Type.Underlying().(type) {
+		case *types.Pointer, *types.Interface, *types.Map, *types.Slice:
+		default:
+			c.Undecide("R-C18-4", consG, pos(c, read), "the existence read yields a "+tv.Type.String()+", not a nil-able object: the guard shape is not recognised")
+			return
+		}
 	}
 	vKey := f.NilKey(holder)
 	var hObj types.Object
@@ -1322,6 +1340,7 @@ func (a *c18apiCtx) handlerRules(s *c18sum, method string) {
 
 	// ---- kind comparison (update)
 	kindKey := ""
+	kindEq, kindNe := flow.True, flow.False // values of kindKey meaning "same kind" / "another kind"
 	if role == "update" {
 		isKind := func(e ast.Expr, depth int) (types.Object, bool) { return nil, false }
 		isKind = func(e ast.Expr, depth int) (types.Object, bool) {
@@ -1373,6 +1392,59 @@ func (a *c18apiCtx) handlerRules(s *c18sum, method string) {
 			}
 			return true
 		})
+		// … or a same-package bool helper that compares the kinds of its two parameters
+		// (sameKind(a, b) / differentKind(a, b)), called with the stored object
+		if kindKey == "" {
+			for _, call := range calls(s.fd.Body, false) {
+				g := a.calleeOf(call)
+				if g == nil {
+					continue
+				}
+				eq, ok := a.kindHelper(g)
+				if !ok {
+					continue
+				}
+				withHolder := false
+				exprs := append([]ast.Expr{}, call.Args...)
+				if sel, ok := ast.Unparen(call.Fun).(*ast.SelectorExpr); ok {
+					exprs = append(exprs, sel.X)
+				}
+				for _, e := range exprs {
+					if id, ok := ast.Unparen(e).(*ast.Ident); ok && hObj != nil && info.Uses[id] == hObj {
+						withHolder = true
+					}
+				}
+				if withHolder {
+					kindKey = f.CallKey(call)
+					if !eq {
+						kindEq, kindNe = flow.False, flow.True
+					}
+				}
+			}
+		}
+		// a bool-valued call on the stored object that the rule cannot look into
+		if kindKey == "" {
+			for _, call := range calls(s.fd.Body, false) {
+				tv, ok := info.Types[call]
+				if !ok || tv.Type == nil {
+					continue
+				}
+				if b, ok := tv.Type.Underlying().(*types.Basic); !ok || b.Info()&types.IsBoolean == 0 {
+					continue
+				}
+				uses := false
+				ast.Inspect(call, func(n ast.Node) bool {
+					if id, ok := n.(*ast.Ident); ok && hObj != nil && info.Uses[id] == hObj {
+						uses = true
+					}
+					return true
+				})
+				if uses {
+					c.Undecide("R-C18-4", consG, pos(c, call), "the stored object is tested by "+f.Render(call.Fun)+", which is not recognised as a kind comparison")
+					return
+				}
+			}
+		}
 	}
 
 	// ---- guard at the write sites
@@ -1384,7 +1456,7 @@ func (a *c18apiCtx) handlerRules(s *c18sum, method string) {
 			}
 			continue
 		}
-		if g, ok := typeutilCallee(info, call).(*types.Func); ok {
+		if g := a.calleeOf(call); g != nil {
 			if gs := a.sums[g]; gs != nil && gs.obj > 0 {
 				writes = append(writes, call)
 			}
@@ -1406,7 +1478,7 @@ func (a *c18apiCtx) handlerRules(s *c18sum, method string) {
 				switch {
 				case kindKey == "":
 					badW, whyW = st, "update never compares the kind of the stored object with the kind of the request: an update with another kind replaces the object instead of answering 400"
-				case !st.Is(kindKey, flow.True):
+				case !st.Is(kindKey, kindEq):
 					badW, whyW = st, "update writes the object on a path where the kinds are not known to be equal: an update with another kind modifies the object instead of answering 400"
 				}
 			}
@@ -1420,6 +1492,7 @@ func (a *c18apiCtx) handlerRules(s *c18sum, method string) {
 	// ---- status of the refused requests
 	var badS *flow.State
 	whyS := ""
+	unknownStatus := false
 	n := 0
 	for _, ex := range s.res.Exits {
 		st := ex.State
@@ -1432,13 +1505,15 @@ func (a *c18apiCtx) handlerRules(s *c18sum, method string) {
 				n++
 				if !st.Is(c18stPrefix+"409", flow.True) {
 					badS, whyS = st, "creating an existing name does not answer 409 Conflict"
+					unknownStatus = unknownStatus || st.Is(c18stPrefix+"?", flow.True)
 				}
 			}
 		case "update":
-			if kindKey != "" && st.Is(kindKey, flow.False) {
+			if kindKey != "" && st.Is(kindKey, kindNe) {
 				n++
 				if !st.Is(c18stPrefix+"400", flow.True) {
 					badS, whyS = st, "updating with another kind does not answer 400 Bad Request"
+					unknownStatus = unknownStatus || st.Is(c18stPrefix+"?", flow.True)
 				}
 			}
 		}
@@ -1446,12 +1521,70 @@ func (a *c18apiCtx) handlerRules(s *c18sum, method string) {
 	if role == "create" || role == "update" {
 		if n == 0 && badW == nil {
 			c.Violate("R-C18-4", s.cons+"|refusal status", pos(c, s.fd.Body), "no exit of the handler refuses the request ("+role+")")
+		} else if badW == nil && badS != nil && unknownStatus {
+			c.Undecide("R-C18-4", s.cons+"|refusal status", pos(c, s.fd.Body), "the status code of the refusal is not a constant the analysis can follow")
 		} else if badW == nil {
 			c.Check(badS == nil, "R-C18-4", s.cons+"|refusal status", pos(c, s.fd.Body),
 				map[string]string{"create": sprintf("%d exit state(s) with an existing name all answered 409", n),
 					"update": sprintf("%d exit state(s) with another kind all answered 400", n)}[role], whyS, witness(badS)...)
 		}
 	}
+}
+
+// kindHelper recognises a function whose body is `return a.Kind() == b.Kind()` (eq = true) or
+// `return a.Kind() != b.Kind()` (eq = false) over two of its parameters / its receiver.
+func (a *c18apiCtx) kindHelper(g *types.Func) (eq, ok bool) {
+	fd := a.decls[g]
+	if fd == nil || len(fd.Body.List) != 1 {
+		return false, false
+	}
+	ret, isRet := fd.Body.List[0].(*ast.ReturnStmt)
+	if !isRet || len(ret.Results) != 1 {
+		return false, false
+	}
+	e := ast.Unparen(ret.Results[0])
+	neg := false
+	for {
+		u, isNot := e.(*ast.UnaryExpr)
+		if !isNot || u.Op != token.NOT {
+			break
+		}
+		neg = !neg
+		e = ast.Unparen(u.X)
+	}
+	b, isBin := e.(*ast.BinaryExpr)
+	if !isBin || (b.Op != token.EQL && b.Op != token.NEQ) {
+		return false, false
+	}
+	info := a.pkg.TypesInfo
+	var objs []types.Object
+	for _, side := range []ast.Expr{b.X, b.Y} {
+		call, isCall := ast.Unparen(side).(*ast.CallExpr)
+		if !isCall {
+			return false, false
+		}
+		fo, _ := typeutilCallee(info, call).(*types.Func)
+		if fo == nil || fo.Name() != "Kind" || fo.Pkg() == nil || fo.Pkg().Path() != Mod+"pkg/supervisor" {
+			return false, false
+		}
+		sel, isSel := ast.Unparen(call.Fun).(*ast.SelectorExpr)
+		if !isSel {
+			return false, false
+		}
+		id, isID := ast.Unparen(sel.X).(*ast.Ident)
+		if !isID {
+			return false, false
+		}
+		v, isVar := info.Uses[id].(*types.Var)
+		if !isVar || v.IsField() || v.Parent() == v.Pkg().Scope() {
+			return false, false
+		}
+		objs = append(objs, v)
+	}
+	if objs[0] == objs[1] {
+		return false, false
+	}
+	return (b.Op == token.EQL) != neg, true
 }
 
 // ---- R-C18-5
